@@ -30,14 +30,20 @@ var solvers = []solverSpec{
 }
 
 // query builds the SMT-LIB text of one obligation.
-func (c *Ctx) query(o *Obligation, wantModel bool) string {
+func (c *Ctx) query(o *Obligation, wantModel bool, dropQuant bool) string {
 	var b strings.Builder
 	b.WriteString(prelude)
 	for _, d := range c.decls {
+		if dropQuant && strings.HasPrefix(d, "(assert") && hasQuant(d) {
+			continue
+		}
 		b.WriteString(d)
 		b.WriteByte('\n')
 	}
 	for _, a := range c.asserts[:o.Pos] {
+		if dropQuant && hasQuant(a) {
+			continue // dropping an assumption only weakens what is known: 'unsat' stays sound
+		}
 		b.WriteString("(assert ")
 		b.WriteString(a)
 		b.WriteString(")\n")
@@ -47,6 +53,10 @@ func (c *Ctx) query(o *Obligation, wantModel bool) string {
 		b.WriteString("(get-model)\n")
 	}
 	return b.String()
+}
+
+func hasQuant(s string) bool {
+	return strings.Contains(s, "(forall ") || strings.Contains(s, "(exists ")
 }
 
 func runSolver(ctx context.Context, s solverSpec, file string, timeoutS, seed int) (status, out string) {
@@ -79,14 +89,44 @@ func runSolver(ctx context.Context, s solverSpec, file string, timeoutS, seed in
 func discharge(c *Ctx, o *Obligation, dir string, idx int, tier string, seed int) {
 	t0 := time.Now()
 	file := filepath.Join(dir, fmt.Sprintf("o%05d.smt2", idx))
-	q := c.query(o, true)
-	o.SMTSize = len(q)
-	os.WriteFile(file, []byte(q), 0o644)
 	defer func() { o.TimeS = time.Since(t0).Seconds() }()
 	first, escal := 4, 20
 	if tier == "thorough" {
 		first, escal = 10, 120
 	}
+	// stage A: without the quantified assumptions (decidable fragment in most cases)
+	var weakModel string
+	if c.quant {
+		fileA := filepath.Join(dir, fmt.Sprintf("o%05da.smt2", idx))
+		qa := c.query(o, true, true)
+		os.WriteFile(fileA, []byte(qa), 0o644)
+		stA, outA := runSolver(context.Background(), solvers[0], fileA, first, seed)
+		if stA == "unsat" {
+			o.SMTSize = len(qa)
+			o.Status, o.Solver = "unsat", solvers[0].name
+			if tier != "thorough" {
+				return
+			}
+			for _, s2 := range solvers[1:] {
+				if st2, _ := runSolver(context.Background(), s2, fileA, escal, seed); st2 == "unsat" {
+					o.Solver += "+" + s2.name
+					return
+				}
+			}
+			return
+		}
+		if stA == "sat" {
+			weakModel = outA
+		}
+	}
+	q := c.query(o, true, false)
+	o.SMTSize = len(q)
+	os.WriteFile(file, []byte(q), 0o644)
+	defer func() {
+		if o.Status != "unsat" && o.Status != "sat" && weakModel != "" {
+			o.Model = "; solver gave no definite answer with the quantified assumptions; candidate counterexample obtained without them:\n" + weakModel
+		}
+	}()
 	st, out := runSolver(context.Background(), solvers[0], file, first, seed)
 	if st == "unsat" || st == "sat" {
 		o.Status, o.Solver = st, solvers[0].name
